@@ -179,6 +179,7 @@ fn main() {
                 "overflow" => grid::GridKind::Overflow,
                 "decoders" => grid::GridKind::Decoders,
                 "vecgrowth" => grid::GridKind::VecGrowth,
+                "crossarena" => grid::GridKind::CrossArena,
                 "box" => grid::GridKind::BoxChains,
                 k => {
                     eprintln!("MACHINERY: unknown grid kind {k}");
